@@ -710,7 +710,8 @@ def mon_C04(ops, results):
     for i, name, pos, args, res, last, feeds in Trace(ops, results).steps():
         rf = res_fields(res)
         if name == "restart":
-            high = high_bucket   # a new process: only what this bucket committed constrains the clock
+            # a new process: what this bucket committed, and what the other buckets of the process (hlc=) were already given
+            high = max(high_bucket, int(arg(args, "hlc", "0")))
         if name == "draw":
             c = int(rf.get("cas", "0"))
             if c <= high:
@@ -734,6 +735,8 @@ def mon_C04(ops, results):
                 out.append(viol("C04.high-water-mark", i, "bucket.lastCas %d exceeds the clock %d" % (b, h)))
         elif name == "restart":
             h = int(rf.get("hlc", "0"))
+            if res.startswith("r=ok") and h < int(arg(args, "hlc", "0")):
+                out.append(viol("C04.open-never-lowers-the-clock", i, "the process clock stood at %s before the bucket was opened and at %d afterwards" % (arg(args, "hlc"), h)))
             committed = [int(rb_fields(r).get("row.cas", "0")) for o, r in zip(ops[:i], results[:i]) if o.startswith("rb ") and r.startswith("row=1")]
             if committed and not any(o.startswith(("swm", "dwm")) for o in ops) and h < max(committed):
                 out.append(viol("C04.reopen-seeds-clock", i, "after reopen the clock is at %d, below a committed CAS %d" % (h, max(committed))))
@@ -967,8 +970,9 @@ def mon_C16(ops, results):
             for fid, v in done.items():
                 if v == "1" and prev.get(fid, "0") == "0" and not feeds[fid]["dump"]:
                     cname, cpos, cargs = cause
-                    legit = (cname == "stopfeed" and cpos and cpos[0] == fid) or (cname == "dropcoll" and cpos and cpos[0] in feeds[fid]["colls"]) \
-                        or cname in ("cadh", "hclose")
+                    # a bucket-level feed over several collections is done only when every one of its collections is gone
+                    legit = (cname == "stopfeed" and cpos and cpos[0] == fid) or cname in ("cadh", "hclose") or \
+                        (cname == "dropcoll" and cpos and cpos[0] in feeds[fid]["colls"] and set(feeds[fid]["colls"]) <= feeds[fid]["dropped"])
                     if not legit:
                         out.append(viol("C16.ends-only-its-own-feed", i, "feed %s (on %s) ended after `%s`" % (fid, feeds[fid]["coll"], ops[j])))
                 if v == "1" and prev.get(fid) == "1":
